@@ -103,8 +103,17 @@ pub fn run_case(ctx: &mut Ctx, case: &Value) {
             return;
         }
     };
-    super::flowkit::attach_issued(ctx, &mut tree, &order, &payload, &discs);
-    if kb && payload.get("cnf") != Some(&jwk) {
+    let sd_alg = match crate::tree::declared_sd_alg(&payload) {
+        Some(a) if payload.get("_sd_alg").is_some() => a,
+        _ => {
+            // |M| >= 1 here: the algorithm must be declared, and be one of the supported names
+            ctx.report.diff("property", "Issuer::encode", "Issuer::encode:_sd_alg", case, json!({"payload": payload}));
+            return;
+        }
+    };
+    if sd_alg != "sha-256" { ctx.report.bump(&format!("issued:_sd_alg:{}", sd_alg)); }
+    super::flowkit::attach_issued(ctx, &mut tree, &order, &payload, &discs, &sd_alg);
+    if kb && !cnf_is_key(payload.get("cnf"), &jwk) {
         ctx.report.diff("property", "Issuer::encode", "Issuer::encode:cnf-is-not-the-required-key", case,
             json!({"cnf": payload.get("cnf"), "earlier_encodes": reissue}));
     }
@@ -112,10 +121,7 @@ pub fn run_case(ctx: &mut Ctx, case: &Value) {
         ctx.report.diff("property", "Issuer::encode", "Issuer::encode:cnf-without-key-binding", case, json!({"cnf": payload.get("cnf")}));
     }
     // --- spec view of the issued token
-    let spec = tree_op(ctx, "sha-256", &tree, None, &[]);
-    if payload.get("_sd_alg") != Some(&json!("sha-256")) {
-        ctx.report.diff("property", "Issuer::encode", "Issuer::encode:_sd_alg", case, json!({"payload": payload}));
-    }
+    let spec = tree_op(ctx, &sd_alg, &tree, None, &[]);
     let real_payload = real::canon_sd(&strip_issuer_members(&payload, &claims));
     let spec_payload = real::canon_sd(&spec["payload"]);
     if real_payload != spec_payload {
@@ -165,7 +171,7 @@ pub fn run_case(ctx: &mut Ctx, case: &Value) {
     }
     let real_out = hv.clone().map(|(_, c, ps)| (c, Some(real_paths_json(&ps))));
     let cmp = Compare { prop: "C01", entry: "Holder::verify", case };
-    compare_restoration(ctx, &cmp, "sha-256", &payload, &discs, &real_out, Some(&expected_claims), Some(&expected_paths), true);
+    compare_restoration(ctx, &cmp, &sd_alg, &payload, &discs, &real_out, Some(&expected_claims), Some(&expected_paths), true);
     ctx.report.bump(&format!("holder:{}", hv.class()));
 }
 
